@@ -3,10 +3,10 @@ C12 on the engine: the directory tasks of the BuildSystem as an engine `Program`
 brand-new engine computes, Lemmas/Engine/Defs.lean) means for it.
 
 Part 1 (namespace LLBuild.Engine): lemmas about delivery sequences of tasks whose request KEYS depend on delivered
-values.  `Program.Det` (Lemmas/Engine/Determinism.lean) demands that a request id identifies the request across
-ALL received-value lists; `DirectoryTreeSignatureTask` requests `Node(path/filenames[i])` under id `1+i`, where
-`filenames` is the delivered directory listing, so it is NOT `Det`.  `Program.LocalIds` (ids are distinct within
-each single request list + monotonicity) is what it does satisfy, and it is enough for everything `Det` gives.
+values.  `DirectoryTreeSignatureTask` requests `Node(path/filenames[i])` under id `1+i`, where `filenames` is the
+delivered directory listing, so WHICH key an id stands for depends on what was received; within each single request
+list the ids are distinct, and requests are monotone.  That is exactly `Program.Mono` (Lemmas/Engine/Determinism.lean;
+`Program.LocalIds` is its name here), the hypothesis under which `Clean` is single-valued (`Clean_unique`).
 -/
 import LLBuild.Lemmas.Engine.Determinism
 import LLBuild.Lemmas.Engine.Run
@@ -39,63 +39,9 @@ theorem recvAt_of_mem : ∀ {r : Recv}, SortedIds r → ∀ {i : Nat} {x : Val},
       simp only [hne, if_false]
       exact recvAt_of_mem hs'.2 e
 
-/-- more received values never retract a request, and ids are distinct within each request list -/
-structure Program.LocalIds (P : Program) : Prop where
-  mono : ∀ k (r r' : Recv), SortedIds r → SortedIds r' → (∀ x ∈ r, x ∈ r') → ∀ q ∈ P.next k r, q ∈ P.next k r'
-  ids : ∀ k (r : Recv) q q', q ∈ P.next k r → q' ∈ P.next k r → q.id = q'.id → q = q'
-
-theorem Program.Mono.toLocalIds {P : Program} (h : P.Mono) : P.LocalIds :=
-  ⟨h.mono, fun k r q q' a b c => h.ids k r r q q' a b c⟩
-
-/-- along a valid delivery sequence everything issued so far is still requested, and the received values are
-exactly the deliveries (no id is overwritten) -/
-theorem valid_seq_inv {P : Program} (hL : P.LocalIds) (k : Key) : ∀ (seq : Seq), validSeq P k seq = true →
-    (∀ q, q ∈ issuedAfter P k seq → q ∈ P.next k (recvOf seq)) ∧
-    (∀ (i : Nat) (x : Val), (i, x) ∈ recvOf seq ↔ ∃ q v, (q, v) ∈ seq ∧ q.id = i ∧ x = maskVal q v)
-  | [], _ => by
-    refine ⟨?_, ?_⟩
-    · intro q hq
-      simp only [issuedAfter] at hq
-      exact List.mem_eraseDups.1 hq
-    · intro i x; simp [recvOf]
-  | (q, v) :: rest, hv => by
-    have hv' := hv
-    simp only [validSeq, Bool.and_eq_true] at hv'
-    obtain ⟨⟨⟨hvr, hiss⟩, _⟩, hnd⟩ := hv'
-    obtain ⟨ihA, ihB⟩ := valid_seq_inv hL k rest hvr
-    have hqn : q ∈ P.next k (recvOf rest) := ihA q (by simpa using hiss)
-    -- the id of the new delivery is fresh
-    have hfresh : ∀ q0 v0, (q0, v0) ∈ rest → q0.id ≠ q.id := by
-      intro q0 v0 hm heq
-      have h0 : q0 ∈ P.next k (recvOf rest) := ihA q0 (validSeq_issued P k rest hvr q0 v0 hm)
-      have : q0 = q := hL.ids k _ q0 q h0 hqn heq
-      subst this
-      have : delivered rest q0 = true := (delivered_iff rest q0).2 ⟨v0, hm⟩
-      simp [this] at hnd
-    have hB : ∀ (i : Nat) (x : Val), (i, x) ∈ recvOf ((q, v) :: rest) ↔
-        ∃ q' v', (q', v') ∈ (q, v) :: rest ∧ q'.id = i ∧ x = maskVal q' v' := by
-      intro i x
-      simp only [recvOf]
-      rw [mem_insertRecv _ _ _ (sorted_recvOf rest)]
-      constructor
-      · rintro (⟨h1, h2⟩ | ⟨h1, _⟩)
-        · exact ⟨q, v, by simp, h1.symm, h2⟩
-        · obtain ⟨q0, v0, hm, hid, hx⟩ := (ihB i x).1 h1
-          exact ⟨q0, v0, List.mem_cons_of_mem _ hm, hid, hx⟩
-      · rintro ⟨q0, v0, hm, hid, hx⟩
-        rcases List.mem_cons.1 hm with e | hm'
-        · cases e; left; exact ⟨hid.symm, hx⟩
-        · right
-          exact ⟨(ihB i x).2 ⟨q0, v0, hm', hid, hx⟩, fun heq => hfresh q0 v0 hm' (by rw [hid, heq])⟩
-    refine ⟨?_, hB⟩
-    intro q' hq'
-    simp only [issuedAfter] at hq'
-    rcases List.mem_append.1 hq' with h | h
-    · apply hL.mono k (recvOf rest) _ (sorted_recvOf rest) (sorted_recvOf _) _ q' (ihA q' h)
-      rintro ⟨i, x⟩ hx
-      obtain ⟨q0, v0, hm, hid, hxe⟩ := (ihB i x).1 hx
-      exact (hB i x).2 ⟨q0, v0, List.mem_cons_of_mem _ hm, hid, hxe⟩
-    · exact (List.mem_filter.1 (List.mem_eraseDups.1 h)).1
+/-- more received values never retract a request, and ids are distinct within each request list: the request
+hypothesis of the engine's determinism theorems (`valid_seq_inv`, `mem_recvOf`, `Clean_unique`) -/
+abbrev Program.LocalIds (P : Program) : Prop := P.Mono
 
 /-- a value-carrying request of a completed task was delivered, and the task finds that value under its id -/
 theorem complete_recv {P : Program} (hL : P.LocalIds) {k : Key} {seq : Seq} (hv : validSeq P k seq = true)
@@ -680,24 +626,28 @@ theorem prog_LocalIds : (prog C c sg vld).LocalIds := by
       case dirNode => rw [h1, h2]
       case cmd => rw [h1, h2]
 
-/-- … but it is NOT `Program.Det`: the request made under id 1 depends on the delivered listing. -/
-theorem prog_not_Det : ¬ (prog C c sg vld).Det := by
-  intro hD
-  let i : Info := ⟨0, 0, 0, 0, 0, 0⟩
-  let k := C.key (.sig false [])
-  let r : Recv := [(0, C.val (.bv (dirValue c i [[0x61]])))]
-  let r' : Recv := [(0, C.val (.bv (dirValue c i [[0x62]])))]
-  have hn : ∀ (n : Name), (⟨C.key (.stat n), 1, 0⟩ : Req) ∈
-      (prog C c sg vld).next k [(0, C.val (.bv (dirValue c i [n])))] := by
-    intro n
-    show _ ∈ nextOf C c k _
-    simp only [nextOf, k, C.unkey_key, sigNext, recvAt, if_true, dirV, decode, Option.bind, C.unval_val,
-      namesOfV_dirValue, childReqs, pathAppend, List.isEmpty_nil]
-    simp
-  have := hD.ids k r r' _ _ (hn [0x61]) (hn [0x62]) rfl
-  simp only [Req.mk.injEq, and_true] at this
-  have := C.key_inj this
-  simp at this
+/-- … hence it is `Program.Det` (all requests carry a value: kind 0), the hypothesis of `Clean_unique` /
+`C01_value_unique` / `C06_schedule_independent_value_eq`. -/
+theorem prog_Det : (prog C c sg vld).Det := by
+  refine { toMono := prog_LocalIds C c sg vld, kinds := ?_ }
+  intro k r q hq
+  have h1 : q ∈ nextOf C c k r := hq
+  unfold nextOf at h1
+  cases hk : C.unkey k with
+  | none => rw [hk] at h1; cases h1
+  | some dk =>
+    rw [hk] at h1
+    cases dk <;> simp only [List.mem_cons, List.not_mem_nil, or_false] at h1
+    case contents => rcases h1 with rfl | rfl <;> exact Nat.zero_le 2
+    case sig s p =>
+      unfold sigNext at h1
+      simp only [List.mem_cons, List.mem_append] at h1
+      rcases h1 with rfl | h1 | h1
+      · exact Nat.zero_le 2
+      · obtain ⟨i, n, _, rfl⟩ := (mem_childReqs C).1 h1; exact Nat.zero_le 2
+      · obtain ⟨i, n, _, _, rfl⟩ := (mem_subReqs C).1 h1; exact Nat.zero_le 2
+    case dirNode => rw [h1]; exact Nat.zero_le 2
+    case cmd => rw [h1]; exact Nat.zero_le 2
 
 end Client
 
